@@ -43,19 +43,36 @@ class LockAnalysis:
         self._run()
 
     def _transfer_stmts(self, state, block):
+        """Holders are locals, or (local, field index) for a guard that sits in a field of a tuple / struct built in place
+        (`let (a, b) = if .. { (ga, gb) } else { .. }`)."""
         state = set(state)
+
+        def local_of(h):
+            return h[0] if isinstance(h, tuple) else h
         for s in block["stmts"]:
             if s["k"] == "assign":
                 rv = s["rv"]
-                if rv["k"] == "use" and mir.is_place_op(rv["o"]) and rv["o"][0] == "mv":
+                if rv["k"] == "use" and mir.is_place_op(rv["o"]) and rv["o"][0] == "mv" and len(s["p"]) == 1:
                     src = rv["o"][1]
-                    if len(src) == 1 and len(s["p"]) == 1:
-                        moved = {(t, h) for (t, h) in state if h == src[0]}
+                    if len(src) == 1:
+                        moved = {(t, h) for (t, h) in state if local_of(h) == src[0]}
+                        if moved:
+                            state -= moved
+                            state |= {(t, (s["p"][0], h[1]) if isinstance(h, tuple) else s["p"][0]) for (t, h) in moved}
+                    elif len(src) == 2 and isinstance(src[1], list) and src[1] and src[1][0] == "f":
+                        moved = {(t, h) for (t, h) in state if h == (src[0], src[1][1])}
                         if moved:
                             state -= moved
                             state |= {(t, s["p"][0]) for (t, _) in moved}
+                elif rv["k"] == "agg" and len(s["p"]) == 1:
+                    for i, o in enumerate(rv.get("ops", [])):
+                        if mir.is_place_op(o) and o[0] == "mv" and len(o[1]) == 1:
+                            moved = {(t, h) for (t, h) in state if h == o[1][0]}
+                            if moved:
+                                state -= moved
+                                state |= {(t, (s["p"][0], i)) for (t, _) in moved}
             elif s["k"] == "dead":
-                state = {(t, h) for (t, h) in state if h != s["l"]}
+                state = {(t, h) for (t, h) in state if local_of(h) != s["l"]}
         return state
 
     def _transfer_term(self, state, bi, block):
@@ -67,7 +84,9 @@ class LockAnalysis:
         if k == "drop":
             p = t["p"]
             if len(p) == 1:
-                st = {(tok, h) for (tok, h) in st if h != p[0]}
+                st = {(tok, h) for (tok, h) in st if (h[0] if isinstance(h, tuple) else h) != p[0]}
+            elif len(p) == 2 and isinstance(p[1], list) and p[1] and p[1][0] == "f":
+                st = {(tok, h) for (tok, h) in st if h != (p[0], p[1][1])}
             for s in mir.succs(block):
                 out[s] = st
             return out
